@@ -344,6 +344,19 @@ func replay(in, out string) {
 	w.Close()
 }
 
+// septets that are characters of the GSM 7-bit alphabet but not of the shared set: code 0, the other codes for which
+// TimersRatesNames states no value, and the three characters with another code in the basic table
+var foreign = func() []int {
+	a := []int{0, 0, 0, 127, 36, 64, 95, 11, 12}
+	for c := 1; c <= 9; c++ {
+		a = append(a, c)
+	}
+	for c := 14; c <= 31; c++ {
+		a = append(a, c)
+	}
+	return a
+}()
+
 var units = []string{"Kbps", "Mbps", "Gbps", "Tbps", "Pbps"}
 
 // characters whose ASCII code equals their GSM 7-bit default alphabet code
@@ -546,6 +559,35 @@ func record(out string) {
 				name("Full", cp)
 			} else {
 				name("Short", cp)
+			}
+		}
+		// characters outside the alphabet ASCII and GSM 7-bit share (Trace_C17!NameOKAny says what is required of
+		// them): a seeded text ending in one to three septets 0, and texts over the whole generated alphabet
+		if n > 0 {
+			for r := 0; r < reps; r++ {
+				cp := make([]int, n)
+				for i := range cp {
+					cp[i] = shared[rng.Intn(len(shared))]
+				}
+				if r%2 == 0 {
+					for k := 0; k <= rng.Intn(3) && k < n; k++ {
+						cp[n-1-k] = 0
+					}
+				} else {
+					for i := range cp {
+						if rng.Intn(3) == 0 {
+							cp[i] = foreign[rng.Intn(len(foreign))]
+						}
+					}
+					if rng.Intn(2) == 0 {
+						cp[n-1] = foreign[rng.Intn(len(foreign))]
+					}
+				}
+				if (r/2)%2 == 0 {
+					name("Full", cp)
+				} else {
+					name("Short", cp)
+				}
 			}
 		}
 	}
